@@ -188,7 +188,21 @@ def run(repo: Repo, chk: Check, thorough: bool = False) -> None:
                    f'`{norm(n)}`: the cursor that is bounds-checked and advanced is not the one the character is read from - the bracket / star scan decides on the wrong character', repo.loc(tr.mod, n))
     if n_guard < 4:
         raise AnalysisError(f'R13.1: {n_guard} guarded cursor reads found in translate (4 confirmed by hand)')
-    chk.require('R13.1', 13)
+    # a ']' directly after the opening bracket is a member of the set - also after the '!' of a negated set ([!]] matches anything but ']'):
+    # the test for the leading ']' must be reached whether or not the '!' test succeeded
+    cft = CFG(tr)
+    def _reads_const(test: ast.AST, ch: str) -> bool:
+        return any(isinstance(x, ast.Compare) and isinstance(x.left, ast.Subscript) and isinstance(x.left.value, ast.Name) and x.left.value.id == prm0 and
+                   any(const_str(c) == ch for c in x.comparators) and isinstance(x.ops[0], ast.Eq) for x in ast.walk(test))
+    bang = [n for n in tr.walk() if isinstance(n, ast.If) and _reads_const(n.test, '!')]
+    close = [n for n in tr.walk() if isinstance(n, ast.If) and _reads_const(n.test, ']')]
+    if not bang or not close:
+        raise AnalysisError("R13.1: the tests for a leading '!' / ']' of a bracket set were not found in translate")
+    dep = [(t, pol) for t, pol in cft.dominating_tests(close[0], raw=True) if t is bang[0].test]
+    chk.ob('R13.1', "qnmatch.translate :: a leading ']' is literal in a negated set too", not dep,
+           "the ']' test follows the '!' test on both of its outcomes" if not dep else
+           f"the ']' test is only reached when `{norm(bang[0].test)}` is {dep[0][1]}: `[!]...]` closes the set at the first ']' and matches something else", repo.loc(tr.mod, close[0]))
+    chk.require('R13.1', 14)
 
     # ------------------------------------------------------------------ R13.2
     pc = repo.func('pydoctor.model.System.privacyClass')
